@@ -4,6 +4,7 @@ package main
 
 import (
 	"bytes"
+	"io"
 	"encoding/binary"
 	"fmt"
 	"strings"
@@ -11,6 +12,7 @@ import (
 
 	v1 "github.com/fatedier/frp/pkg/config/v1"
 	"github.com/fatedier/frp/pkg/msg"
+	netpkg "github.com/fatedier/frp/pkg/util/net"
 	"github.com/fatedier/frp/pkg/util/util"
 
 	"verif/mc/drv"
@@ -202,8 +204,58 @@ func scPipeClient(x *vs.Exec) {
 	w.Svc.Close()
 }
 
+// loginorder: the reply to a login is a plain LoginResp frame, and only then does the encrypted message stream start
+// (with the server's requests for pooled work connections): under every schedule of the server's goroutines the
+// client must be able to read them in that order — builds of the same protocol version interoperate.
+func scLoginOrder(x *vs.Exec) {
+	defer sw.Guard()
+	w := sw.New(x, sw.Opt{AllowPorts: sw.P(20000, 20001), UserConnTimeout: 5, HeartbeatTimeout: -1})
+	w.Quiesce()
+	vs.SetInterest(true)
+	c, err := w.Dial()
+	if err != nil {
+		vs.Fail("dial: %v", err)
+		return
+	}
+	defer func() { c.Close(); w.Teardown() }()
+	ts := w.Now()
+	msg.WriteMsg(c, &msg.Login{Version: "0.62.0", User: "u", PrivilegeKey: util.GetAuthKey(sw.Token, ts), Timestamp: ts, PoolCount: 2})
+	// the frame header decides (read as one block and judged on its fixed part only, so that random cipher text in
+	// its place is never parsed and the verdict does not depend on the random bytes)
+	hdr := make([]byte, 9)
+	if _, idle, err := c.ReadFullOrIdle(hdr); idle || err != nil {
+		vs.Fail("login with poolCount=2: no reply (idle=%v err=%v)", idle, err)
+		return
+	}
+	if hdr[0] != msg.TypeLoginResp || !bytes.Equal(hdr[1:7], make([]byte, 6)) {
+		vs.Fail("login with poolCount=2: the reply does not start with the header of a plain LoginResp frame: the encrypted message stream started before the login reply was written")
+		return
+	}
+	var resp msg.LoginResp
+	if err := msg.ReadMsgInto(io.MultiReader(bytes.NewReader(hdr), c), &resp); err != nil || resp.Error != "" || resp.RunID == "" {
+		vs.Fail("login reply unreadable or refused")
+		return
+	}
+	enc, err := netpkg.NewCryptoReadWriter(c, []byte(sw.Token))
+	if err != nil {
+		vs.Fail("crypto: %v", err)
+		return
+	}
+	for i := 0; i < 2; i++ {
+		m, err := msg.ReadMsg(enc)
+		if _, ok := m.(*msg.ReqWorkConn); err != nil || !ok {
+			vs.Fail("after the login reply the encrypted stream should carry the server's %d requests for pooled work connections; message %d: %T %v", 2, i, m, err)
+			break
+		}
+	}
+	vs.SetInterest(false)
+}
+
 func scenarios() {
 	vs.ScenarioFactory = func(name string) *vs.Scenario {
+		if name == "loginorder" {
+			return &vs.Scenario{Name: name, Horizon: 300 * time.Second, MaxSteps: 100000, NoEarlyTick: true, End: sw.StdEnd, Body: scLoginOrder}
+		}
 		if name == "pipe/client" {
 			return &vs.Scenario{Name: name, Horizon: 300 * time.Second, MaxSteps: 100000, NoEarlyTick: true, End: func(x *vs.Exec) string { return strings.Join(x.Obs, "\n") }, Body: scPipeClient}
 		}
@@ -222,12 +274,13 @@ func main() {
 	if c == nil {
 		return
 	}
-	c.Rule(fmt.Sprintf("E1: %d kinds of malformed / unexpected first messages sent to the real frps on the virtual network (default schedule and all schedules with one deviation); the offending connection must be closed within the read timeout, the server dump unchanged, another session still answers heartbeats and serves traffic; first messages followed in the same segment by the connection's payload (visitor stream, early bytes of a work connection, and on the client's side the user's bytes behind a StartWorkConn frame): the payload travels on, nothing is read past the frame", len(firsts)))
+	c.Rule(fmt.Sprintf("E1: %d kinds of malformed / unexpected first messages sent to the real frps on the virtual network (default schedule and all schedules with one deviation); the offending connection must be closed within the read timeout, the server dump unchanged, another session still answers heartbeats and serves traffic; first messages followed in the same segment by the connection's payload (visitor stream, early bytes of a work connection, and on the client's side the user's bytes behind a StartWorkConn frame): the payload travels on, nothing is read past the frame; the plain LoginResp precedes the encrypted stream under every schedule with <= 2 deviations of a login with poolCount=2", len(firsts)))
 	i := 0
 	for name := range firsts {
 		c.Explore("first/"+name, drv.Pick(c, 1, 2), 1.0/float64(len(firsts)-i))
 		i++
 	}
+	c.ExploreBoth("loginorder", 2, 0.5)
 	for _, k := range []string{"visitor", "work", "client"} {
 		c.Explore("pipe/"+k, 1, 0.5)
 	}
